@@ -202,8 +202,8 @@ def unit_sets(tier):
         yield "rule-family(1)/8", list(families.rule_family(1))[::8], base[:1]
         yield "mem-family(2)/3@no-simp", list(families.mem_family(2))[::3], base[1:2]
         yield "tree(SPLIT11,3)", list(B.tree(SPLIT11, 3)), base[:1] + [("-storage", "-greedy")]
-        yield "opt:consume-family/3", [("opt", b) for b in list(families.consume_family())[::3]], base[:1]
-        yield "opt:rule-family(1)/16", [("opt", b) for b in list(families.rule_family(1))[3::16]], base[:1]
+        yield "opt:consume-family/2", [("opt", b) for b in list(families.consume_family())[::2]], base[:1]
+        yield "opt:rule-family(1)/8", [("opt", b) for b in list(families.rule_family(1))[3::8]], base[:1]
     else:
         yield "tree(CORE+,3)", list(B.tree(B.CORE + EXTRA, 3)), allc
         yield "mem-family(2)", list(families.mem_family(2)), allc
